@@ -5,6 +5,7 @@ import (
 	"encoding/hex"
 	"encoding/json"
 	"fmt"
+	"github.com/janelia-flyem/dvid/datastore"
 	"sort"
 	"strings"
 	"time"
@@ -105,7 +106,7 @@ type njSess struct {
 }
 
 func (s *njSess) log(f string, a ...interface{}) { s.hist = append(s.hist, fmt.Sprintf(f, a...)) }
-func (s *njSess) history() string              { return strings.Join(s.hist, "\n") }
+func (s *njSess) history() string                { return strings.Join(s.hist, "\n") }
 
 // maskTimes replaces every *_time value by "T" (the clock is not part of the comparison)
 func maskTimes(v interface{}) interface{} {
@@ -472,6 +473,23 @@ func runC16(c *Ctx) {
 					}
 				}
 				s.snapshotCompare()
+				if s.r.Bool() {
+					// the head's in-memory database is rebuilt from the store (as at a restart), then read and
+					// edited again: the rebuilt state has to answer like the one it replaces
+					datastore.CloseReopenTest()
+					s.log("datastore closed and reopened (the head's in-memory database is reloaded from the store)")
+					c.Count("reload")
+					a, b := s.reads(s.versions[len(s.versions)-2]), s.reads(s.head)
+					for k := range a {
+						s.c.Eval("reload cmp "+k, true)
+						if a[k] != b[k] {
+							ep := strings.SplitN(strings.SplitN(strings.SplitN(k, " ", 2)[0], "/", 2)[0], "?", 2)[0]
+							s.c.Report("O", "C16 memory-vs-store-after-reload "+ep, "after the head's in-memory database was reloaded from the store it answers a read differently from the store",
+								fmt.Sprintf("read: %s\nstore path (committed parent): %s\nmemory path (reloaded head):   %s\nhistory:\n%s\n", k, trunc800(a[k]), trunc800(b[k]), s.history()))
+							break
+						}
+					}
+				}
 			}
 		}()
 	}
